@@ -68,6 +68,27 @@ def uri_probes(uri_pool, extra_tails=("1", "x/y", ""), alphabet=None, replaced=T
         if alphabet is None and p:
             add(p + p)             # the prefix occurs again inside the identifier
             add(p + "1" + p)
+            add(p + " ")           # white space is part of the identifier / breaks the match in front
+            add(" " + p + "1")
+            add(p.swapcase() + "1")
+            add(p + "%20?x=1&y=2#frag")
     add("zzz")
     add("\U0001d11e\u0301 ")
+    return out
+
+
+def synthetic_curie_prefixes(n):
+    """Extra CURIE prefixes for the rare *large* configurations (sizes are part of the swarm)."""
+    out = []
+    for i in range(n):
+        out.append(f"p{i}" if i % 3 else f"P{i // 3}x")
+    return out
+
+
+def synthetic_uri_prefixes(n):
+    """Extra URI prefixes forming long nesting chains: s://h0/, s://h0/a, s://h0/aa, ..."""
+    out = []
+    for i in range(n):
+        host, level = i % 6, i // 6
+        out.append(f"s://h{host}/" + "a" * level)
     return out
